@@ -116,6 +116,15 @@ impl RefServer {
         }
     }
 
+    /// Forget the session negotiated so far: the next request is challenged with the configured offer.
+    pub fn reset_session(&mut self) {
+        self.ses_algs = self.cfg.algs.clone();
+        self.ses_anon = self.cfg.anon;
+        self.ses_cookie = self.cfg.cookie;
+        self.ses_realm = self.cfg.realm.clone();
+        self.cur_nonce = None;
+    }
+
     fn fresh_nonce(&mut self) -> String {
         self.nonce_ctr += 1;
         let rest = format!("n{:04}q", self.nonce_ctr);
@@ -262,7 +271,14 @@ impl RefServer {
                         if let Some(r) = kv_get(spec, "realm") {
                             self.ses_realm = r.to_string();
                         }
-                        let nonce = self.fresh_nonce();
+                        // a new nonce is issued when the server has none, when the offer changes or when the
+                        // personality forces a new challenge; otherwise (retransmissions of an unauthenticated
+                        // request, a request with bad credentials) the challenge in force is repeated
+                        let offer_changed = ["algs", "anon", "nonce", "realm"].iter().any(|k| kv_get(spec, k).is_some());
+                        let nonce = match (&self.cur_nonce, forced == "401" || offer_changed) {
+                            (Some(n), false) => n.clone(),
+                            _ => self.fresh_nonce(),
+                        };
                         self.cur_nonce = Some(nonce.clone());
                         b = Builder::new(C_ERROR, req.method, &req.txid);
                         if !kv_has(spec, "noerr") {
@@ -282,7 +298,12 @@ impl RefServer {
                         }
                     }
                     "438" => {
-                        let nonce = self.fresh_nonce();
+                        // the nonce is rotated only when the personality expires it; a request that merely
+                        // carries a stale nonce is told the nonce currently in force
+                        let nonce = match (&self.cur_nonce, forced == "438") {
+                            (Some(n), false) => n.clone(),
+                            _ => self.fresh_nonce(),
+                        };
                         self.cur_nonce = Some(nonce.clone());
                         b = Builder::new(C_ERROR, req.method, &req.txid);
                         if !kv_has(spec, "noerr") {
